@@ -114,6 +114,23 @@ class C18(Oracle):
             out.append(V('transform/inverse', f'{t}'))
         if (t * u) * r != t * (u * r):
             out.append(V('transform/action', f'{t},{u},{r}'))
+        # what a helper hands out stays what it is, whatever the caller does with its own variable
+        for o_ in ORIENTS:
+            unit = Position.from_orientation(o_)
+            snap = unit.yx
+            d_ = Position.from_orientation(o_)
+            d_ += q
+            d_ -= p
+            e_ = get_next_position(p, o_, ACTIONS[0])
+            e_ += r
+            if Position.from_orientation(o_).yx != snap or unit.yx != snap:
+                out.append(V('position/augmented-assignment-changes-a-shared-constant', f'{o_}: from_orientation now gives {Position.from_orientation(o_)}'))
+                break
+        pa = Position(p.y, p.x)
+        pb = pa
+        pb += q
+        if pa != p or pb != p + q:
+            out.append(V('position/augmented-assignment-aliases', f'{p} += {q}'))
         # a pose is a mutable object (Agent moves and turns by assigning to it): the laws must hold for
         # its current value at every point of its life, whatever was computed from it before
         tm = Transform(p, a)
@@ -2478,6 +2495,20 @@ class C19(Oracle):
         first = raytracing.cached_compute_rays_fancy(pos, area)
         for p2, a2 in others:
             raytracing.cached_compute_rays_fancy(p2, a2)
+        # the consumers of the fans in between (the visibility functions, on a grid of this very area):
+        # a consumer must not leave anything behind in what the next caller gets
+        if area.ymin == 0 and area.xmin == 0:
+            import numpy as np
+            from gym_gridverse.grid_object import Wall
+
+            g2 = Grid([[Wall() if rr.random() < 0.25 else Floor() for _ in range(area.width)] for _ in range(area.height)])
+            g2[pos] = Floor()
+            m1 = vf.raytracing(g2, pos)
+            for _ in range(2):
+                vf.stochastic_raytracing(g2, pos, rng=np.random.default_rng(rr.randrange(2**31)))
+            m2 = vf.raytracing(g2, pos)
+            if not (m1 == m2).all():
+                out.append(V('raytracing/answer-changed-after-other-calls', f'{c}'))
         again = raytracing.cached_compute_rays_fancy(pos, area)
         fresh = raytracing.compute_rays_fancy(pos, area)
         key = lambda rs: [[p.yx for p in r] for r in rs]  # noqa: E731
@@ -2661,6 +2692,26 @@ class C17(Oracle):
         for name in ('reach_exit', 'bump_into_wall', 'bump_moving_obstacle'):
             if tf.factory(name, junk=1)(s, a, s2) != tf.terminating_function_registry[name](s, a, s2):
                 out.append(V('factory/component-by-name-differs', name))
+        # a distance function obtained by name is the function of that name, on every pair of positions
+        from gym_gridverse.envs.yaml.factory import factory_distance_function, factory_reward_function
+
+        for dname, dfn in (('manhattan', Position.manhattan_distance), ('euclidean', Position.euclidean_distance)):
+            f = factory_distance_function(dname)
+            for _ in range(6):
+                p_, q_ = Position(rr.randint(-9, 9), rr.randint(-9, 9)), Position(rr.randint(-9, 9), rr.randint(-9, 9))
+                if f(p_, q_) != dfn(p_, q_):
+                    out.append(V('factory/distance-function-by-name-differs', f'{dname} {p_} {q_}: {f(p_, q_)} instead of {dfn(p_, q_)}'))
+                    break
+            # ... and so is the reward built from a description naming it
+            if sum(isinstance(s2.grid[pp], Exit) for pp in s2.grid.area.positions()) == 1:
+                desc = {'name': 'proportional_to_distance', 'distance_function': dname, 'object_type': 'Exit', 'reward_per_unit_distance': -0.5}
+                try:
+                    got = factory_reward_function(dict(desc))(s, a, s2)
+                    exp = rf.proportional_to_distance(s, a, s2, distance_function=dfn, object_type=Exit, reward_per_unit_distance=-0.5)
+                    if got != exp:
+                        out.append(V('factory/reward-by-description-differs', f'{desc}: {got} instead of {exp}'))
+                except Exception as e:
+                    out.append(V('factory/reward-by-description-raises', f'{desc}: {type(e).__name__}: {e}'))
         # falsy parameter values are values (0, 0.0, False), not "unspecified"
         import numpy as np
         from gym_gridverse.envs import reset_functions as rsf
